@@ -277,7 +277,7 @@ Section Rel.
     - pose proof (assoc_str_rel _ _ x (prelude_table_rel _ _ H)) as Ha.
       destruct (assoc_str (prelude_table al1) x), (assoc_str (prelude_table al2) x);
         cbn [opt_rel] in Ha; try contradiction; cbn [res_rel]; [exact Ha|reflexivity].
-    - destruct (forallb ident_lexb (x :: y :: l)); cbn [res_rel]; [apply R_refl|reflexivity].
+    - destruct (forallb path_seg_okb (x :: y :: l)); cbn [res_rel]; [apply R_refl|reflexivity].
   Qed.
 
   (** ** Specified substitutes: the argument tokens are spliced into the printed path *)
